@@ -1,12 +1,12 @@
 #!/bin/bash
-# seedreverify.sh <k> <n>  - re-runs the detecting check(s) of every k-th (mod n) stored seeded change
+# seedreverify.sh <k> <n>  (SEEDS="id id ..." restricts the list) - re-runs the detecting check(s) of every k-th (mod n) stored seeded change
 # against a scratch worktree of /repo (VERIF_REPO_OVERRIDE; /repo itself is not touched), using the
 # harness under ${VERIF_ROOT:-/verif}.  Result: seeded/<id>/reverify.txt in /verif and a line on stdout.
 k=$1; n=$2
 root=${VERIF_ROOT:-/verif}
 export GOFLAGS=-mod=mod GOPROXY=off GOSUMDB=off GOTOOLCHAIN=local
 i=0
-for sid in $(ls /verif/seeded); do
+for sid in ${SEEDS:-$(ls /verif/seeded)}; do
   i=$((i+1)); [ $((i % n)) -eq $k ] || continue
   d=/verif/seeded/$sid
   checks=$(python3 -c "
